@@ -1,11 +1,19 @@
 // prom harness: drives the real Prometheus middleware (middleware/prometheus).
 // usage: prom <sub-command> -seed N -n N -out FILE [-replay FILE]
+//
+// When built with -race the binary re-executes itself with
+// GORACE="exitcode=0 log_path=<dir>/race", so that a data race found by the
+// detector does not abort the run: the case during which the report appeared is
+// marked as failed (raceBytes below) and the reports are copied to stderr.
 package main
 
 import (
 	"flag"
 	"fmt"
+	"io"
 	"os"
+	"os/exec"
+	"path/filepath"
 
 	"verif/harness/common"
 )
@@ -13,6 +21,56 @@ import (
 type subcmd func(seed uint64, n int, out *common.Out, replay string)
 
 var subcmds = map[string]subcmd{}
+
+// raceDir: where the race detector writes its reports ("" when not in use)
+var raceDir = os.Getenv("VERIF_RACE_DIR")
+
+// raceBytes: total size of the race reports written so far
+func raceBytes() int64 {
+	if raceDir == "" {
+		return 0
+	}
+	es, err := os.ReadDir(raceDir)
+	if err != nil {
+		return 0
+	}
+	var n int64
+	for _, e := range es {
+		if fi, err := e.Info(); err == nil {
+			n += fi.Size()
+		}
+	}
+	return n
+}
+
+func reexecUnderRaceLog(outPath string) {
+	dir, err := os.MkdirTemp(filepath.Dir(outPath), "race-")
+	if err != nil {
+		return // run without the log; a race then ends the process with exit code 66
+	}
+	defer os.RemoveAll(dir)
+	cmd := exec.Command(os.Args[0], os.Args[1:]...)
+	cmd.Env = append(os.Environ(), "VERIF_RACE_DIR="+dir, "GORACE=exitcode=0 log_path="+filepath.Join(dir, "race"))
+	cmd.Stdout, cmd.Stderr = os.Stdout, os.Stderr
+	err = cmd.Run()
+	if es, e := os.ReadDir(dir); e == nil {
+		for _, f := range es {
+			if fh, e := os.Open(filepath.Join(dir, f.Name())); e == nil {
+				io.Copy(os.Stderr, fh)
+				fh.Close()
+			}
+		}
+	}
+	os.RemoveAll(dir)
+	if ee, ok := err.(*exec.ExitError); ok {
+		os.Exit(ee.ExitCode())
+	}
+	if err != nil {
+		fmt.Fprintln(os.Stderr, "prom:", err)
+		os.Exit(2)
+	}
+	os.Exit(0)
+}
 
 func main() {
 	if len(os.Args) < 2 {
@@ -31,6 +89,9 @@ func main() {
 	}
 	if *outp == "" {
 		common.Fatalf("-out required")
+	}
+	if raceBuild && raceDir == "" {
+		reexecUnderRaceLog(*outp)
 	}
 	out := common.NewOut(*outp)
 	defer out.Close()
